@@ -39,6 +39,29 @@ def shared_mutables(a, b):
     return [ra[i] for i in ra if i in rb]
 
 
+def _OtherPacket():
+    from bisturi.packet import Packet
+    from bisturi.field import Int
+    global _OTHER
+    try:
+        return _OTHER()
+    except NameError:
+        pass
+    import types
+    src = "from bisturi.packet import Packet\nfrom bisturi.field import Int\nclass Other(Packet):\n    __bisturi__ = {'generate_for_pack': False, 'generate_for_unpack': False}\n    a = Int(1)\n"
+    import tempfile, importlib.util, os
+    dd = tempfile.mkdtemp(prefix="otherpkt_")
+    path = os.path.join(dd, "otherpkt.py")
+    with open(path, "w") as fh:
+        fh.write(src)
+    spec = importlib.util.spec_from_file_location("otherpkt", path)
+    m = importlib.util.module_from_spec(spec)
+    sys.modules["otherpkt"] = m
+    spec.loader.exec_module(m)
+    _OTHER = m.Other
+    return _OTHER()
+
+
 def observe_case(mod, d, c, how="ctor"):
     """-> observation record (JSON-able) of constructing/packing/re-parsing on the real classes"""
     from bind import observe
@@ -52,6 +75,7 @@ def observe_case(mod, d, c, how="ctor"):
             for k, v in build_kwargs(mod, c["K"]).items():
                 setattr(obj, k, v)
         obs["cv"] = observe.abs_packet(obj)["vals"]
+        vis0 = observe.abs_packet(obj, visible=True)["vals"]
         # a second construction must not share mutable state with the first (unless the user passed it)
         other = cls()
         obs["shared_with_fresh"] = len(shared_mutables(obj, other))
@@ -75,10 +99,50 @@ def observe_case(mod, d, c, how="ctor"):
             obs["ac"] = False
         # pack() twice gives the same bytes and leaves the values alone
         again = rp.run_pack(mod, obj, with_events=False)
-        if again.get("out") != po["out"] or observe.abs_packet(obj)["vals"] != obs["cv"] and not d.get("has_desc"):
+        if again.get("out") != po["out"] or observe.abs_packet(obj, visible=True)["vals"] != vis0:
             obs["repack_differs"] = True
+    # ---- equality and repr (C20): q is a second construction, differing in exactly the re-assigned field
+    obs["eq"] = {"st": "none"}
+    if d.get("eqtest"):
+        e = {"st": "ok", "errors": []}
+        try:
+            q = cls(**build_kwargs(mod, c["K"])) if how == "ctor" else cls()
+            if how != "ctor":
+                for k, val in build_kwargs(mod, c["K"]).items():
+                    setattr(q, k, val)
+            if c["mod"]["n"]:
+                setattr(q, c["mod"]["n"], observe.build_value(mod, c["mod"]["v"]))
+            e["cv2"] = observe.abs_packet(q, visible=True)["vals"]
+            e["cv1"] = observe.abs_packet(obj, visible=True)["vals"]
+        except Exception as ex:
+            e["st"] = "setup_failed"
+            q = None
+        if q is not None:
+            for label, fn in (("eq", lambda: obj == q), ("ne", lambda: obj != q), ("eq_self", lambda: obj == obj),
+                              ("eq_none", lambda: obj == None), ("ne_none", lambda: obj != None),   # noqa: E711
+                              ("eq_other", lambda: obj == _OtherPacket()), ("repr", lambda: isinstance(repr(obj), str)),
+                              ("repr_q", lambda: isinstance(repr(q), str))):
+                try:
+                    e[label] = bool(fn())
+                except Exception as ex:
+                    e["errors"].append("%s raised %s" % (label, type(ex).__name__))
+            # two packets parsed from the same bytes; a parsed packet against the constructed one
+            if po["st"] == "done":
+                try:
+                    a = cls.unpack(bytes(po["out"]))
+                    b = cls.unpack(bytes(po["out"]))
+                    e["parsed_eq"] = bool(a == b) and not bool(a != b)
+                    e["parsed_vals"] = observe.abs_packet(a, visible=True)["vals"]
+                    fresh = cls(**build_kwargs(mod, c["K"]))      # never packed: hidden slots of described fields not synced
+                    e["parsed_vs_built"] = bool(a == obj) and bool(a == fresh) and bool(fresh == a)
+                    e["repr_parsed"] = isinstance(repr(a), str)
+                except observe.PacketError:
+                    pass
+                except Exception as ex:
+                    e["errors"].append("parsed pair raised %s" % type(ex).__name__)
+        obs["eq"] = e
     obs["cp2"] = {"st": "none", "out": []}
-    if c["mod"]["n"]:
+    if c["mod"]["n"] and not d.get("eqtest"):
         try:
             setattr(obj, c["mod"]["n"], observe.build_value(mod, c["mod"]["v"]))
             p2 = rp.run_pack(mod, obj, with_events=False)
@@ -120,7 +184,21 @@ def compare(obs, c):
             mm.append("conf_assert_consistency")
     if obs.get("repack_differs"):
         mm.append("C13_pack_pure")
-    if c["p2"]["st"] != "none":
+    e = obs.get("eq", {"st": "none"})
+    if e["st"] == "ok":
+        if e["errors"]:
+            mm.append("C20_Total")
+        else:
+            same = e["cv1"] == e["cv2"]
+            if e.get("eq") != same or e.get("ne") != (not same):
+                mm.append("C20_Structural")
+            if not e.get("eq_self") or e.get("eq_none") or not e.get("ne_none") or e.get("eq_other"):
+                mm.append("C20_Structural")
+            if "parsed_eq" in e and not e["parsed_eq"]:
+                mm.append("C20_ParsedEqual")
+            if "parsed_vs_built" in e and e["parsed_vs_built"] != (e["parsed_vals"] == e["cv1"]):
+                mm.append("C20_ParsedEqual")
+    if c["p2"]["st"] != "none" and not obs.get("eqtest"):
         if obs["cp2"]["st"] != c["p2"]["st"]:
             mm.append("conf_pack2_outcome")
         elif c["p2"]["st"] == "done" and obs["cp2"]["out"] != c["p2"]["out"]:
@@ -131,7 +209,8 @@ def compare(obs, c):
 _W = {}
 
 
-def _winit(univ, gens):
+def _winit(univ, gens, sample_ok=0):
+    _W["sample_ok"] = sample_ok
     sys.path.insert(0, os.path.dirname(os.path.dirname(os.path.abspath(__file__))))
     from lib import common
     common.bind_repo()
@@ -161,16 +240,20 @@ def _wrun(chunk):
                     continue
                 if mm:
                     out.append({"clauses": mm, "obs": obs, "gen": gen, "d": c["d"], "how": how})
+                elif _W.get("sample_ok", 0) > 0 and obs.get("eq", {}).get("st") == "ok":
+                    # also hand a sample of agreeing executions to TLC (the predicates are evaluated, not only the diffs)
+                    _W["sample_ok"] -= 1
+                    out.append({"clauses": [], "obs": obs, "gen": gen, "d": c["d"], "how": how})
     return n, out
 
 
-def replay_all(univ, cases, gens, procs=14, chunk=150):
+def replay_all(univ, cases, gens, procs=14, chunk=150, sample_ok=0):
     cases = sorted(cases, key=lambda c: c["d"])
     chunks = [cases[i:i + chunk] for i in range(0, len(cases), chunk)]
     ctx = multiprocessing.get_context("fork")
     mism = []
     n = 0
-    with ctx.Pool(procs, initializer=_winit, initargs=(univ, gens)) as pool:
+    with ctx.Pool(procs, initializer=_winit, initargs=(univ, gens, (sample_ok + procs - 1) // procs)) as pool:
         for k, out in pool.imap_unordered(_wrun, chunks):
             n += k
             mism.extend(out)
@@ -183,6 +266,10 @@ def judge(records, timeout=3000):
     recs = []
     for o in records:
         r = {k: o[k] for k in ("prog", "root", "K", "mod", "cv", "cp", "cu", "cp2", "ac")}
+        e = o.get("eq", {"st": "none"})
+        r["eq"] = {"has": e["st"] == "ok", "errors": len(e.get("errors", [])), "cv1": e.get("cv1", []), "cv2": e.get("cv2", []),
+                   "eq": bool(e.get("eq")), "ne": bool(e.get("ne")), "hasparsed": "parsed_eq" in e, "parsed_eq": bool(e.get("parsed_eq")),
+                   "parsed_vals": e.get("parsed_vals", []), "parsed_vs_built": bool(e.get("parsed_vs_built"))}
         r["cp"] = {"st": r["cp"]["st"], "out": r["cp"]["out"], "err": r["cp"]["err"]}
         recs.append(r)
     d = tempfile.mkdtemp(prefix="valtrace_")
